@@ -4,6 +4,7 @@ pub mod choice;
 pub mod engine;
 pub mod fuzz;
 pub mod gen;
+pub mod geo;
 pub mod known;
 pub mod model;
 pub mod props;
